@@ -43,6 +43,10 @@ MUTANTS = [
  ("C17-branch-before-commit-object", "C17", "lake/branch.go",
   "\t\tif err := b.pool.commits.Put(ctx, object); err != nil {\n\t\t\treturn ksuid.Nil, fmt.Errorf(\"branch %q failed to write commit object: %w\", b.Name, err)\n\t\t}\n",
   ""),
+ ("C07-lake-no-slicer", "C07", "compiler/optimizer/optimizer.go",
+  "\t\t\tif orderRequired {\n\t\t\t\tseq = append(seq, &dag.Slicer{Kind: \"Slicer\"})", "\t\t\tif orderRequired && false {\n\t\t\t\tseq = append(seq, &dag.Slicer{Kind: \"Slicer\"})"),
+ ("C07-lake-pool-order-flipped", "C07", "compiler/optimizer/optimizer.go",
+  "\treturn pool.SortKeys, nil\n", "\tflipped := append(order.SortKeys(nil), pool.SortKeys...)\n\tfor i := range flipped {\n\t\tif flipped[i].Order == order.Asc {\n\t\t\tflipped[i].Order = order.Desc\n\t\t} else {\n\t\t\tflipped[i].Order = order.Asc\n\t\t}\n\t}\n\treturn flipped, nil\n"),
  ("C08-head-not-merged", "C08", "compiler/optimizer/parallelize.go", None, None),
  ("C19-late-error-not-recorded", "C19", "service/handlers.go",
   "\t\twriter.WriteError(err)\n\t\tstatus.setError(err)\n", "\t\twriter.WriteError(err)\n"),
